@@ -152,7 +152,8 @@ Definition loc_wf (la lo : Z * Z * Z * Z * Z) (alt : Z) (sz hp vp : dbl) : Prop 
   coord_wf la /\ coord_wf lo /\ loc_coord_ok la 90 = true /\ loc_coord_ok lo 180 = true /\
   -10000000 <= alt < 4284967296 /\ 0 <= dm sz /\ 0 <= dm hp /\ 0 <= dm vp /\
   (loc_sizes_default sz hp vp = false ->
-     loc_size_ok (num_reparse sz) = Ok tt /\ loc_size_ok (num_reparse hp) = Ok tt /\ loc_size_ok (num_reparse vp) = Ok tt).
+     (exists s, loc_norm (num_reparse sz) = Ok s) /\ (exists s, loc_norm (num_reparse hp) = Ok s)
+     /\ (exists s, loc_norm (num_reparse vp) = Ok s)).
 
 Lemma loc_wf_ok la lo alt sz hp vp : loc_wf la lo alt sz hp vp -> loc_ok la lo alt sz hp vp.
 Proof.
